@@ -403,6 +403,10 @@ class RetryExecutor(CanCustomizeBind, Executor):
                         self._log.debug("Successful cancel - no delegate: %s", job)
                         self._jobs.pop(idx)
                         metrics.RETRY_QUEUE.labels(executor=self._name).dec()
+                        # Forget the previous attempt's future: through its done
+                        # callback it references this executor, which the
+                        # cancelled future must not keep alive.
+                        future._clear_delegate()
                         return True
 
                     found_job = job
